@@ -1,0 +1,111 @@
+//go:build verif
+
+package fstree
+
+// Machine-checked contracts (govc, see /verif/DESIGN.md). Comment-only file.
+
+// ---- C13 / C12 (Linux writer).
+// Typestate of a combined-write batch: closed(b) <=> its descriptor was closed and its
+// `ready` channel was closed. intSync performs both and therefore may run at most once per
+// batch: a second run closes a closed channel (the process dies) and closes a descriptor
+// number that may already belong to another file. write() leaves the batch closed exactly
+// when it fails. A file becomes visible under its final name (Linkat) only after the whole
+// record was written into the anonymous file (C12), and a write reports success only if
+// every system call succeeded (C13).
+
+//@ ghost field closed(b *syncBatch) bool
+//@ chanlink syncBatch.ready closed
+
+//@ frame close(syncBatch.ready) only in (*syncBatch).intSync
+//@   property C13
+
+//@ ghost field syncFault(x int) bool
+//@ ghost field closeFault(x int) bool
+//@ callrule intsync_fdatasync_result in (*syncBatch).intSync
+//@   property C13
+//@   callee unix.Fdatasync
+//@   assigns syncFault
+//@   defines syncFault(0) == (err != nil)
+//@ callrule intsync_close_result in (*syncBatch).intSync
+//@   property C13
+//@   callee unix.Close
+//@   assigns closeFault
+//@   defines closeFault(0) == (err != nil)
+
+//@ func (*syncBatch).intSync
+//@   property C13
+//@   valid b != nil && !syncFault(0) && !closeFault(0)
+//@   requires [batch_not_closed_yet] !closed(b)
+//@   assigns closed, syncFault, closeFault, *
+//@   defines closed(b) && (forall o *syncBatch :: o != b ==> closed(o) == old(closed(o)))
+//@   ensures [sync_or_close_failure_is_recorded] (syncFault(0) || closeFault(0)) ==> b.err != nil
+//@   ensures [first_error_is_kept] old(b.err) != nil ==> b.err == old(b.err)
+
+//@ func (*syncBatch).wait
+//@   property C13
+//@   valid b != nil
+//@   ensures [reports_batch_error] result == b.err
+
+//@ ghost pred recordWritten() bool
+//@ callrule write_writev_result in (*syncBatch).write
+//@   property C12, C13
+//@   callee unix.Writev
+//@   defines (err == nil && res0 == combinedDataOff + len(data)) ==> recordWritten()
+//@ callrule link_only_complete_records in (*syncBatch).write
+//@   property C12, C13
+//@   callee unix.Linkat
+//@   requires [whole_record_written_before_link] recordWritten()
+
+//@ func (*syncBatch).write
+//@   property C12, C13
+//@   valid b != nil
+//@   requires [batch_open] !closed(b)
+//@   assigns closed, syncFault, closeFault, *
+//@   ensures [failure_closes_batch_and_records_error] err != nil ==> closed(b) && b.err != nil
+//@   ensures [success_keeps_batch_open] err == nil ==> !closed(b)
+//@   ensures [other_batches_untouched] forall o *syncBatch :: o != b ==> closed(o) == old(closed(o))
+
+//@ func (*linuxWriter).createBatch
+//@   property C13
+//@   ensures [fresh_open_batch] err == nil ==> res0 != nil && !closed(res0)
+//@ func (*linuxWriter).newSyncBatch
+//@   property C13
+//@   ensures [fresh_open_batch] err == nil ==> res0 != nil && !closed(res0)
+
+//@ func (*syncBatch).sync
+//@   property C13
+//@   valid b != nil
+
+//@ func (*linuxWriter).writeCombinedFile
+//@   property C13
+//@   valid w != nil
+//@   ensures [success_only_through_the_batch_result] err == nil ==> resultOf(err, "(*fstree.syncBatch).wait")
+
+//@ func (*linuxWriter).writeBatch
+//@   property C13
+//@   valid w != nil
+//@   loop 1 invariant !closed(sb)
+
+//@ func (*linuxWriter).finalize
+//@   property C13
+//@   valid w != nil
+
+//@ ghost pred fileWritten() bool
+//@ ghost pred fileLinked() bool
+//@ ghost pred fileClosedOK() bool
+//@ callrule writefile_write_result in (*linuxWriter).writeFile
+//@   property C12, C13
+//@   callee unix.Write
+//@   defines (err == nil && res0 == len(data)) ==> fileWritten()
+//@ callrule writefile_link_result in (*linuxWriter).writeFile
+//@   property C12, C13
+//@   callee unix.Linkat
+//@   requires [whole_file_written_before_link] fileWritten()
+//@   defines (err == nil || errIs(err, unix.EEXIST)) ==> fileLinked()
+//@ callrule writefile_close_result in (*linuxWriter).writeFile
+//@   property C13
+//@   callee unix.Close
+//@   defines err == nil ==> fileClosedOK()
+//@ func (*linuxWriter).writeFile
+//@   property C12, C13
+//@   ensures [success_means_written_linked_closed] err == nil ==> fileWritten() && fileLinked() && fileClosedOK()
